@@ -15,6 +15,7 @@ import GormModel.Lemmas.CallbacksRepair
 import GormModel.Lemmas.CallbacksGuard
 import GormModel.Gen.Pipelines
 import GormModel.Gen.CallbackFacts
+import GormModel.Lemmas.CallbackBuilder
 namespace Gorm
 open Gen
 open CbL
@@ -465,5 +466,151 @@ theorem C17_stale_backlink_current_tree :
       unfold treeRepairs; rw [hc']
     rw [this]
     decide
+
+/-! ## The registration BUILDER: how a request reaches `compile` (round 3)
+
+  `p.Before(x).After(y).Register(n, f)`, `p.After(y).Before(x).Register(n, f)`, `p.Match(fc).After(y).Before(z).Before(x)…`:
+  every spelling of a request is a `Chain`; the bodies of the builder methods are regenerated tables
+  (`treeBuilder`, extract/gen_c17_builder.go) interpreted by `Chain.record`. -/
+
+open BldL CbB
+
+/-- the builder API of the tree under check (regenerated): every starter zeroes all fields but its own, every chain
+    method and finisher keeps every field it does not set, finishers append their receiver once and return
+    `compile()`, `p.Register/Replace/Remove` delegate to a builder that carries nothing, no further chain method
+    exists -/
+theorem C17_builder_bodies_current_tree : Canon treeBuilder := by decide
+
+/-- LAST WINS, whatever the order and the length of the chain: for every tree whose builder methods keep what they
+    do not set, the record a chain registers carries the argument of the LAST `Before` of the chain, of the LAST
+    `After`, the predicate of the `Match` that started it, and the finisher's name / handler / kind -/
+theorem C17_chain_last_wins (T : BuilderFacts) (hT : Canon T) (ch : Chain) :
+    ch.record T = ch.request ∧
+    (ch.record T).before = ch.lastBefore ∧ (ch.record T).after = ch.lastAfter ∧ (ch.record T).mtch = ch.pred := by
+  have h := record_eq T hT ch
+  refine ⟨h, ?_, ?_, ?_⟩ <;> rw [h] <;> unfold Chain.request <;> cases ch.fin <;> rfl
+
+/-- … in particular the ORDER of the calls is irrelevant: `After(x).Before(y)` registers what `Before(y).After(x)`
+    registers, and calls that are overridden later in the chain leave no trace -/
+theorem C17_chain_order_irrelevant (T : BuilderFacts) (hT : Canon T) (c1 c2 : Chain)
+    (hb : c1.lastBefore = c2.lastBefore) (ha : c1.lastAfter = c2.lastAfter) (hp : c1.pred = c2.pred)
+    (hf : c1.fin = c2.fin) : c1.record T = c2.record T := by
+  rw [record_eq T hT, record_eq T hT]
+  unfold Chain.request
+  rw [hb, ha, hp, hf]
+
+example : (Chain.mk (.after "x") [.before "y"] (.register "n" 1)).record treeBuilder =
+          (Chain.mk (.before "y") [.after "x"] (.register "n" 1)).record treeBuilder ∧
+          (Chain.mk (.mtch (some true)) [.before "q", .after "x", .after "", .before "y", .after "x"] (.register "n" 1)).lastBefore = "y" := by
+  decide
+
+/-- `b := p.Before(x); b.After(y); b.Register(n, f)` -- the values returned by the chain methods thrown away: as long
+    as the chain methods mutate their receiver (the pinned tree) that registers what the chained spelling registers -/
+theorem C17_dropped_results_same_when_mutating (T : BuilderFacts) (hT : Canon T)
+    (hb : T.beforeFresh = false) (ha : T.afterFresh = false) (ch : Chain) :
+    ch.recordDropped T = ch.request := by
+  rw [recordDropped_eq T hT hb ha, record_eq T hT]
+
+/-- a tree whose `Before` returns a fresh builder that forgets `after` (the other fields kept) is NOT canonical and
+    the order of the calls matters there: `After(x).Before(y)` loses `After(x)` -/
+theorem C17_forgetful_chain_method_counterexample :
+    let T : BuilderFacts := { BuilderFacts.canonical with cbBefore := { before := .param0, after := .zero }, beforeFresh := true }
+    ¬ Canon T ∧
+    ((Chain.mk (.after "x") [.before "y"] (.register "n" 1)).record T).after = "" ∧
+    ((Chain.mk (.before "y") [.after "x"] (.register "n" 1)).record T).after = "x" := by
+  decide
+
+/-- histories of chains ARE histories of `RegOp`s (so every history theorem above speaks about every spelling):
+    on a canonical tree, running chains that are expressible as `RegOp`s (every Register chain; Replace chains whose
+    Match is nil/true; Remove chains without request) equals running their `RegOp`s -/
+theorem C17_chains_are_regops (T : BuilderFacts) (hT : Canon T) (r : CbRepairs) (p : Proc) (chs : List Chain)
+    (he : ∀ ch ∈ chs, Expressible ch) :
+    Proc.runChains T r p chs = Proc.runR r p (chs.map toRegOp) := by
+  unfold Proc.runChains Proc.runCbsR Proc.runR
+  have : chs.map (fun ch => (ch.record T).toCb) = (chs.map toRegOp).map RegOp.toCb := by
+    rw [List.map_map]
+    apply List.map_congr_left
+    intro ch hch
+    simp only [Function.comp]
+    rw [record_eq T hT, request_toCb ch (he ch hch)]
+  rw [this]
+  exact runCbsR_map_toCb r _ p []
+
+/-- a Remove issued through a builder that carries a request or a Match (`p.Before(x).Remove(n)`,
+    `p.Match(fc).Remove(n)`) acts exactly as `p.Remove(n)`: the record is dropped by the compile it triggers -/
+theorem C17_remove_ignores_builder (T : BuilderFacts) (hT : Canon T) (r : CbRepairs) (p : Proc) (ch : Chain) (n : String)
+    (hf : ch.fin = .remove n) :
+    p.applyCbR r (ch.record T).toCb = p.applyR r (.remove n) := by
+  rw [record_eq T hT]
+  have hrem : ch.request.toCb.remove = true := by unfold Chain.request; rw [hf]; rfl
+  have hname : ch.request.toCb.name = n := by unfold Chain.request; rw [hf]; rfl
+  rw [applyCbR_remove_record r p _ hrem, hname]
+  rfl
+
+/-- `processor.Get` on the model: after a successful call, `Get n` is the handler that runs for `n`
+    (`handlerOf`, the handler `C17_exactly_once` speaks about) whenever the last record of `n` is not a Remove record -/
+theorem C17_get_is_last_live_record (p : Proc) (n : String) (h : Nat) (hg : p.get n = some h) :
+    ∃ c ∈ p.callbacks, c.name = n ∧ c.remove = false ∧ c.hid = h := by
+  unfold Proc.get at hg
+  obtain ⟨c, hc, rfl⟩ := Option.map_eq_some_iff.mp hg
+  have hmem := List.mem_of_find?_eq_some hc
+  have hp := List.find?_some hc
+  simp at hp
+  exact ⟨c, List.mem_reverse.mp hmem, hp.1, hp.2, rfl⟩
+
+/-- VALUE SEMANTICS of the table: `p.callbacks` holds POINTERS and a finisher mutates and appends its receiver;
+    as long as the builder value is not in the table yet (every chain used for ONE finisher), the finisher appends
+    one record and leaves all others alone -- which is what `Proc.applyCbR` models -/
+theorem C17_builder_used_once_appends (T : BuilderFacts) (t : PtrTable) (i : Nat) (f : Finish) (b : Bld)
+    (hcell : t.cells[i]? = some b) (hfresh : i ∉ t.table) :
+    (t.finish T i f).view = t.view ++ [f.run T b] :=
+  view_finish_fresh T t i f b hcell hfresh
+
+/-- F21 (finding): a builder value used for TWO finishers (`b := p.Before("x"); b.Register("a", f); b.Register("b", g)`)
+    -- the second call renames the record the first one stored: the table holds the same record twice, the
+    name "a" is gone, and no compile can run it (the order only contains names of the table) -/
+theorem C17_builder_reuse_counterexample :
+    let t0 : PtrTable := { cells := [Start.run treeBuilder (.before "x")], table := [] }
+    let t := (t0.finish treeBuilder 0 (.register "a" 1)).finish treeBuilder 0 (.register "b" 2)
+    t.view.map (·.name) = ["b", "b"] ∧
+    "a" ∉ (sortCallbacksR treeRepairs (t.view.map Bld.toCb)).sorted ∧
+    (sortCallbacksR treeRepairs (t.view.map Bld.toCb)).fns = [2] := by
+  decide
+
+/-- … and the partial statement: finishers through pairwise DISTINCT builder values that are not in the table yet
+    append exactly their records, in call order, and leave the rest of the table alone (no reuse = value semantics) -/
+theorem C17_builder_reuse_partial (T : BuilderFacts) (fs : List (Nat × Finish)) :
+    ∀ (t : PtrTable), (fs.map (·.1)).Nodup → (∀ x ∈ fs, x.1 ∉ t.table ∧ (t.cells[x.1]?).isSome) →
+    (fs.foldl (fun (t : PtrTable) x => t.finish T x.1 x.2) t).view =
+      t.view ++ fs.filterMap (fun x => (t.cells[x.1]?).map (x.2.run T)) := by
+  induction fs with
+  | nil => intro t _ _; simp
+  | cons x rest ih =>
+    intro t hnd hok
+    have hx := hok x (List.mem_cons_self ..)
+    obtain ⟨b, hb⟩ := Option.isSome_iff_exists.mp hx.2
+    rw [List.foldl_cons]
+    rw [List.map_cons] at hnd
+    have hnd' : (rest.map (·.1)).Nodup := (List.nodup_cons.mp hnd).2
+    have hnotin : ∀ y ∈ rest, y.1 ≠ x.1 := by
+      intro y hy h
+      have := (List.nodup_cons.mp hnd).1
+      exact this (h ▸ List.mem_map_of_mem (f := (·.1)) hy)
+    have hcells : ∀ y ∈ rest, (t.finish T x.1 x.2).cells[y.1]? = t.cells[y.1]? := by
+      intro y hy
+      have := hnotin y hy
+      simp [PtrTable.finish, List.getElem?_modify, Ne.symm this]
+    rw [ih (t.finish T x.1 x.2) hnd' ?_]
+    · rw [view_finish_fresh T t x.1 x.2 b hb hx.1, List.filterMap_cons, hb]
+      simp only [Option.map_some, List.append_assoc, List.singleton_append]
+      congr 2
+      apply BldL.filterMap_congr'
+      intro y hy
+      rw [hcells y hy]
+    · intro y hy
+      have hy' := hok y (List.mem_cons_of_mem _ hy)
+      rw [hcells y hy]
+      refine ⟨?_, hy'.2⟩
+      simp [PtrTable.finish, hy'.1, hnotin y hy]
 
 end Gorm
